@@ -493,6 +493,9 @@ func c35RefControl(b []byte, fin bool, info *c35RefInfo) (verdict int, why strin
 // ---------------------------------------------------------------------------
 
 func c35Judge(what string, outs []c35Outcome, res *vpReadResult) error {
+	if len(res.late) > 0 {
+		return fmt.Errorf("%s: body reads returned %d octets then %v; further Read calls then delivered %d more octets %.60x", what, len(res.data), res.err, len(res.late), res.late)
+	}
 	for _, o := range outs {
 		if c35Matches(o, res.data, res.err) {
 			return nil
